@@ -320,6 +320,13 @@ let check_line (line : string) : unit =
         if get "setup2keeps" <> "1" || get "setup2ok" <> "1" then oracle "setup_keeps" 0;
         if get "setup2recreates" <> "1" then oracle "setup_recreates" 0
       end;
+      if param "nest" = "1" then begin
+        (* the dispatcher nested as a system in an outer dispatcher: set up, run (= one dispatch), disposed through RunNow *)
+        if order "setupN" 'S' <> model_order then disagree "setup_order" 0 (tok_of_ints model_order) (tok_of_ints (order "setupN" 'S'));
+        if not (visit "setupN" 'S') || get "setupNok" <> "1" then oracle "setup_visits" 0;
+        check_trace "TNest" 'd' (parse_trace (get "TNest")) false;
+        if get "PNest" <> "-" then oracle "unexpected_panic" 0
+      end;
       if order "dispose" 'X' <> model_order then
         disagree "dispose_order" 0 (tok_of_ints model_order) (tok_of_ints (order "dispose" 'X'));
       if not (visit "setup" 'S') then oracle "setup_visits" 0;
